@@ -913,6 +913,9 @@ func (c *m3) aliasCheck() {
 							if p.Ellipsis.IsValid() && len(p.Args) == 2 && p.Args[1] == ast.Expr(s) {
 								return true
 							}
+							if len(p.Args) > 0 && p.Args[0] == ast.Expr(s) && appendBack[s] {
+								return true // x = append(x, ..): the old value of x has no name afterwards
+							}
 						case "copy":
 							if len(p.Args) == 2 && p.Args[1] == ast.Expr(s) {
 								return true // the elements are copied
@@ -1295,6 +1298,12 @@ func (c *m3) assigned3(stmts []ast.Stmt, from token.Pos) []types.Object {
 						add(n.Args[0])
 					}
 					if tv, ok := c.p.info.Types[sel.X]; ok && tv.Type != nil && !tv.IsType() {
+						if curMode4 && isBigInt4(tv.Type) && bigMutating4[sel.Sel.Name] {
+							add(sel.X)
+							if sel.Sel.Name == "DivMod" && len(n.Args) == 3 {
+								add(n.Args[2])
+							}
+						}
 						if an := abstractName3(tv.Type); an != "" && mutating3[an+"."+sel.Sel.Name] {
 							add(sel.X)
 						}
